@@ -60,6 +60,9 @@ def run(res, tier):
             except Exception as e:  # noqa
                 dist['fit_error'] = dist.get('fit_error', 0) + 1
                 continue
+            if cid % 2 == 0:
+                from .. import readonly
+                readonly.exercise(reg, X)       # documented as reading only
             dist[name.split(' ')[0]] = dist.get(name.split(' ')[0], 0) + 1
             A, B = lmi.ab(reg, ns)
             P = np.asarray(reg.P_)
@@ -185,6 +188,26 @@ def run(res, tier):
             bad.append(dict(what='fit completed with the all-zero Koopman matrix (only a log line) although a strictly feasible '
                                  'model exists for this supply rate', stop_reason=str(reg.stop_reason_), n_iter=int(reg.n_iter_),
                             estimator=repr(reg), X=Xs.tolist()))
+    # one state recorded in much smaller units (an ill-conditioned but full-rank Gram matrix), every way of handling its inverse:
+    # a fit that completes must not be the all-zero matrix
+    for h, inv_ in enumerate(['pinv', 'inv', 'eig', 'svd', 'chol', 'sqrt', 'ldl'] if tier != 'quick' else ['pinv', 'svd', 'eig']):
+        ns = 2; nu = 1
+        X, _, _ = lmi.linear_data(np.random.default_rng(100 + h), ns, nu, kind='stable')
+        Xs = np.array(X, copy=True)
+        Xs[:, 1] *= 2e-4
+        g = 2.0
+        Xi = np.block([[np.eye(ns) / g, np.zeros((ns, nu))], [np.zeros((nu, ns)), -g * np.eye(nu)]])
+        try:
+            reg = L.LmiEdmdDissipativityConstr(supply_rate=Xi, alpha=1e-9, inv_method=inv_, max_iter=3, solver_params=lmi.SOLVER)
+            reg.fit(Xs, n_inputs=nu, episode_feature=True)
+        except Exception:  # noqa
+            dist['small_units_fit_refused'] = dist.get('small_units_fit_refused', 0) + 1
+            continue
+        dist['small_units_fit_completed'] = dist.get('small_units_fit_completed', 0) + 1
+        if not np.any(reg.coef_) and not is_F9(Xi, ns):
+            bad.append(dict(what='fit completed with the all-zero Koopman matrix (only a log line) although a strictly feasible '
+                                 'model exists for this supply rate (one state in units 2e-4)', inv_method=inv_,
+                            stop_reason=str(reg.stop_reason_), n_iter=int(reg.n_iter_), estimator=repr(reg), X=Xs.tolist()))
     # history: the same estimator object refitted after set_params(supply_rate=...) must behave as a fresh one
     n_hist = 3 if tier == 'quick' else 20
     for h in range(n_hist):
